@@ -14,6 +14,7 @@ import StepModel.GenCxxDedup
 import StepModel.GenCxxDeriveFull
 import StepModel.GenCxxRedefFull
 import StepModel.GenCxxHeadKey
+import StepModel.GenCxxReadBack
 /-!
 # C02 — generated dictionary and classes mirror the EXPRESS schema
 
@@ -902,6 +903,29 @@ theorem C02_mirror_partial {s : Schema} {rank trank : String → Nat} (wf : WF s
     rcases hx with h | h
     · exact Or.inl h
     · exact Or.inr (h td htd)
+
+/-- **The declaration can be read back from the dictionary** — an independent statement of the attribute part of the mirror
+    (audit B, 3), about ANY dictionary that mirrors the schema: for every entity and every attribute outside the INVERSE clause,
+    decoding the descriptor of the attribute's domain (`declOf`: kind, bounds, UNIQUE, OPTIONAL, element type, recursively) gives the
+    declared type, up to exactly two things the dictionary cannot tell apart (`normDecl`): OPTIONAL on a non-ARRAY aggregate, and
+    a literal upper bound equal to the generator's "unbounded" constant versus `?`.  So no two attribute types that differ
+    otherwise get the same descriptor (`refOf_faithful`). -/
+theorem C02_mirror_type_readback {s : Schema} {d : Dict} (hm : Mirror s d) :
+    ∀ e ∈ s.entities, ∃ de ∈ d.entities, de.name = e.name ∧
+      Forall2 (fun (a : Attr) (da : DAttr) => da.name = registeredName a ∧ da.opt = a.optional ∧ da.owner = e.name ∧
+                 declOf da.type = some (normDecl a.type))
+        (e.attrs.filter (fun a => !isInverse a)) de.attrs := by
+  intro e he
+  obtain ⟨de, hde, me⟩ := hm.entities e he
+  exact ⟨de, hde, me.name, forall2_imp (fun a da h => ⟨h.name, h.opt, h.owner, mirrorRef_readback h.type⟩) me.attrs⟩
+
+/-- the two things that are lost, on concrete declarations: `LIST [0:?]` and `LIST [0:2147483647]` get the same descriptor, and
+    so do `LIST OF OPTIONAL …` written with and without OPTIONAL; a different lower bound does not -/
+example : refOf (.aggr .list (some (0, .inf)) false false (.base .integer)) =
+          refOf (.aggr .list (some (0, .lit literalInfinity)) false false (.base .integer)) ∧
+    refOf (.aggr .list none false true (.base .real)) = refOf (.aggr .list none false false (.base .real)) ∧
+    refOf (.aggr .list (some (1, .inf)) false false (.base .integer)) ≠
+          refOf (.aggr .list (some (0, .inf)) false false (.base .integer)) := by decide
 
 /-- The subtype list of an entity descriptor, exactly (order and multiplicity, which `Spec.MirrorEntity.subs` leaves open): the
     entities in emission order, each as often as it names the entity in its SUBTYPE OF list — once, for a schema that lists no
